@@ -96,6 +96,30 @@ def step_case(ctx, case):
                       f'script {code.hex()} cfg {cfg}: {r.detail}')
 
 
+CACHE_WRITERS = ('MAKE_ADAPTER_SIG_PUBLIC', 'MAKE_ADAPTER_SIG_PRIVATE', 'DECRYPT_ADAPTER_SIG', 'DERIVE_SCALAR', 'DERIVE_POINT',
+                 'SIGN_STACK', 'INVOKE', 'CLAMP_SCALAR', 'CHECK_ADAPTER_SIG')
+PAIR_SECOND = CACHE_WRITERS + ('CHECK_SIG_STACK', 'ADD_SCALARS', 'SUBTRACT_SCALARS', 'ADD_POINTS', 'SUBTRACT_POINTS', 'CHECK_SIG', 'TAPROOT')
+
+
+def pair_cases(tier, seed, shard, nshards):
+    """first: up to three typed cases per cache-writing instruction; second: every typed case of the crypto
+    instructions; both in one script, so that whatever the first left in the cache is there for the second"""
+    typed = list(stepspace.typed_cases('quick', seed, 0, 1))
+    firsts, seen = [], {}
+    for code, cfg in typed:
+        nm = stepspace.last_op_name(code)
+        if nm in CACHE_WRITERS and cfg == 0 and seen.get(nm, 0) < 3:
+            seen[nm] = seen.get(nm, 0) + 1
+            firsts.append(code)
+    seconds = [code for code, cfg in typed if cfg == 0 and stepspace.last_op_name(code) in PAIR_SECOND]
+    i = 0
+    for a in firsts:
+        for b in seconds:
+            if i % nshards == shard:
+                yield (a + b, 0)
+            i += 1
+
+
 def blocks(tier, seed):
     q = tier == 'quick'
     nfull, nskel, nchain = (3, 4, 3) if q else (5, 5, 4)
@@ -119,6 +143,8 @@ def blocks(tier, seed):
         Block('STEP_typed', lambda s, n: stepspace.typed_cases(tier, seed, s, n), step_case,
               'multi-operand crypto/contract instructions over typed sub-alphabets', nshards=64),
     ]
+    bl.append(Block('STEP_pairs_shared_cache', lambda s, n: pair_cases(tier, seed, s, n), step_case,
+                    'cache-writing crypto / contract instruction followed by every typed crypto case, in one script', nshards=128))
     return bl
 
 
